@@ -1,7 +1,9 @@
 """C18 -- SLC addresses select the right file, element and bit; data round-trips.
 
-`parse_tag` is regex code (capture groups are outside the engine): it is decided by an EXHAUSTIVE native enumeration of
-the address grammar against the hand-written oracle parser spec/pccc.py (bounded stand-in, never counted as proved).
+`parse_tag` is regex code.  Two lines of defence: (a) contracts `slc.parse_tag.*` on CONSTRUCTED addresses -- the engine interprets
+the regular expressions over symbolic numerals and letter casings (pyvc/rx.py), so extraction and range checks are proved for all
+numerals of every shape of the grammar; (b) an EXHAUSTIVE native enumeration of the address grammar, junk included, against the
+hand-written oracle parser spec/pccc.py (bounded stand-in, never counted as proved).
 Everything downstream of it (message fields, masks, reply extraction) is proved given parse_tag's postcondition."""
 import itertools
 
@@ -176,3 +178,80 @@ for _op in ("read", "write"):
         ensures=["len(t.sent) == 2", "result.error is None",
                  "sent()[18:23] == spec.pccc.read_fields(ft, int(fnum), int(elem), int(w2), 1)"],
         props=["C18"], max_paths=20000)
+
+
+# ---- parse_tag on CONSTRUCTED addresses: the regular expressions are interpreted over symbolic numerals and casings
+# (pyvc/rx.py), so the field extraction and the range checks are proved for ALL file / element / bit / count numerals of the
+# grammar's shapes, not only for the enumerated ones.  Expected results are stated from the components, not by re-parsing.
+PT = "pycomm3.slc_driver.parse_tag"
+NUM = {"fnum": P.numeral(0, 1200), "elem": P.numeral(0, 1200), "bit": P.numeral(0, 120), "cnt": P.numeral(0, 300)}
+_TAIL = {"word": ("", "None", "False"), "word_cnt": (" + '{' + cnt + '}'", "None", "False"),
+         "bit": (" + '/' + bit", "int(bit)", "True"), "bit_cnt": (" + '/' + bit + '{' + cnt + '}'", "int(bit)", "True")}
+for _ft in ("N", "B", "F", "L"):
+    for _form, (_tail, _sub, _isbit) in _TAIL.items():
+        _name = "ft + fnum + ':' + elem" + (" + '/' + bit" if "bit" in _form else "")
+        _cnt = "int(cnt)" if "cnt" in _form else "1"
+        _valid = "1 <= int(fnum) and int(fnum) <= 255 and int(elem) <= 255" + (" and int(bit) <= 15" if "bit" in _form else "")
+        contract(
+            id=f"slc.parse_tag.file.{_ft}.{_form}", func=PT, call=PT + "(tag)",
+            params=dict({k: v for k, v in NUM.items() if k in ("fnum", "elem") or k in _tail}, ft=P.casing(_ft)),
+            setup=[f"name = {_name}", f"tag = ft + fnum + ':' + elem{_tail}", f"valid = {_valid}"],
+            ensures=["(result is not None) == valid",
+                     f"result is None or spec.pccc.normalize(result) == {{'file_type': {_ft!r}, 'file_number': int(fnum), 'element': int(elem), "
+                     f"'sub_element': {_sub}, 'bit_address': {_isbit}, 'count': {_cnt}, 'word': 0}}",
+                     "result is None or result['tag'] == name"],
+            props=["C18"], max_paths=40000)
+# binary-file bit form  B<file>/<n>{count}
+for _form, _tail in (("plain", ""), ("cnt", " + '{' + cnt + '}'")):
+    contract(
+        id=f"slc.parse_tag.bbit.{_form}", func=PT, call=PT + "(tag)",
+        params=dict(ft=P.casing("B"), fnum=P.numeral(0, 1200), n=P.numeral(0, 12000), **({"cnt": NUM["cnt"]} if _tail else {})),
+        setup=[f"tag = ft + fnum + '/' + n{_tail}", "valid = 1 <= int(fnum) and int(fnum) <= 255 and int(n) <= 4095"],
+        ensures=["(result is not None) == valid",
+                 "result is None or spec.pccc.normalize(result) == {'file_type': 'B', 'file_number': int(fnum), 'element': int(n) // 16, "
+                 f"'sub_element': int(n) % 16, 'bit_address': True, 'count': {'int(cnt)' if _tail else '1'}, 'word': 0}}",
+                 "result is None or result['tag'] == ft + fnum + '/' + n"],
+        props=["C18"], max_paths=40000)
+# status file  S:<e>[/<b>][{count}]   (file 2)
+for _form, (_tail, _sub, _isbit) in _TAIL.items():
+    contract(
+        id=f"slc.parse_tag.status.{_form}", func=PT, call=PT + "(tag)",
+        params=dict({k: v for k, v in NUM.items() if k == "elem" or k in _tail}, ft=P.casing("S")),
+        setup=[f"tag = ft + ':' + elem{_tail}", "valid = int(elem) <= 255" + (" and int(bit) <= 15" if "bit" in _form else "")],
+        ensures=["(result is not None) == valid",
+                 "result is None or spec.pccc.normalize(result) == {'file_type': 'S', 'file_number': 2, 'element': int(elem), "
+                 f"'sub_element': {_sub}, 'bit_address': {_isbit}, 'count': {'int(cnt)' if 'cnt' in _form else '1'}, 'word': 0}}"],
+        props=["C18"], max_paths=40000)
+# I/O  I[<f>]:<e>[.<w>][/<b>][{count}]   (output file 0, input file 1, whatever file number is written)
+for _ft, _file in (("I", 1), ("O", 0)):
+    for _hasf in (False, True):
+        for _hasw in (False, True):
+            for _form, (_tail, _sub, _isbit) in _TAIL.items():
+                _head = "ft" + (" + fnum" if _hasf else "") + " + ':' + elem" + (" + '.' + w" if _hasw else "")
+                _pp = dict({k: v for k, v in NUM.items() if k == "elem" or k in _tail}, ft=P.casing(_ft))
+                if _hasf:
+                    _pp["fnum"] = P.numeral(0, 1200)
+                if _hasw:
+                    _pp["w"] = P.numeral(0, 1200)
+                _valid = "int(elem) <= 255" + (" and int(bit) <= 15" if "bit" in _form else "") + \
+                    (" and int(fnum) <= 999" if _hasf else "") + (" and int(w) <= 999" if _hasw else "")
+                contract(
+                    id=f"slc.parse_tag.io.{_ft}.{'f' if _hasf else '-'}{'w' if _hasw else '-'}.{_form}", func=PT, call=PT + "(tag)",
+                    params=_pp, setup=[f"tag = {_head}{_tail}", f"valid = {_valid}"],
+                    ensures=["(result is not None) == valid",
+                             f"result is None or spec.pccc.normalize(result) == {{'file_type': {_ft!r}, 'file_number': {_file}, 'element': int(elem), "
+                             f"'sub_element': {_sub}, 'bit_address': {_isbit}, 'count': {'int(cnt)' if 'cnt' in _form else '1'}, "
+                             f"'word': {'int(w)' if _hasw else '0'}}}"],
+                    props=["C18"], max_paths=40000, tier="quick" if ((not _hasf and not _hasw) or _form == "word") else "thorough")
+# timers / counters  T<f>:<e>.<SUB>
+for _ft in ("T", "C"):
+    contract(
+        id=f"slc.parse_tag.{_ft}.sub", func=PT, call=PT + "(tag)",
+        bind={"sub": [repr(k) for k in ("ACC", "PRE", "EN", "DN", "TT", "CU", "CD", "OV", "UN", "UA", "XX", "AC")],
+              "sep": ["'.'", "'/'"]},
+        params=dict(ft=P.casing(_ft), fnum=P.numeral(0, 1200), elem=P.numeral(0, 1200)),
+        setup=["tag = ft + fnum + ':' + elem + sep + sub", "valid = 1 <= int(fnum) and int(fnum) <= 255 and int(elem) <= 255 and sub in spec.pccc.CT_SUB"],
+        ensures=["(result is not None) == valid",
+                 f"result is None or spec.pccc.normalize(result) == {{'file_type': {_ft!r}, 'file_number': int(fnum), 'element': int(elem), "
+                 "'sub_element': spec.pccc.CT_SUB[sub], 'bit_address': True, 'count': 1, 'word': 0}"],
+        props=["C18"], max_paths=40000)
